@@ -25,7 +25,8 @@ REQUIRED_FEATURES = ["dump:region", "dump:region2", "dump:fill-lower", "dump:joi
                      "dump:table-bins", "dump:table-chroms", "roundtrip:coo", "roundtrip:bg2", "roundtrip:one-based",
                      "roundtrip:square", "layout:load-nonmonotone", "layout:cload-pairs-nonmonotone", "via:subprocess",
                      "bins-arg:chromsizes:binsize", "dump:fill-lower-straddling", "roundtrip:duplex",
-                     "layout:load-square-unsorted-records", "layout:load-count-as-float+explicit-count-field"]
+                     "layout:load-square-unsorted-records", "layout:load-count-as-float+explicit-count-field",
+                     "history:default-layout-after-explicit-field-numbers"]
 
 
 def plan(tier, seed):
@@ -485,3 +486,19 @@ def layout_case(ctx, cid, rng, idx):
             c.nontrivial(cid, rep, tuple(colnums))
             if rep == 1:
                 ctx.sample({"cmd": "cooler " + shown, "field_numbers": fn}, limit=4)
+        if kind in ("coo", "bg2") and not square:
+            # history: the next command of this process relies on the format's DEFAULT column layout again
+            txt = os.path.join(d, "default_layout.txt")
+            write_lines(txt, [v[:-1] for v in values])             # positional fields + count, in the standard order
+            out_uri = os.path.join(d, "default_layout.cool")
+            args = ["load", "-f", kind] + (["--count-as-float"] if cfloat else []) + [bed, txt, out_uri]
+            rc, out, exc = invoke(args)
+            c.feature("history:default-layout-after-explicit-field-numbers")
+            if c.check(rc == 0, f"layout-load-failed:{kind}:default-after-explicit",
+                       f"`cooler load -f {kind}` with the default layout, run after loads with explicit field numbers in the same "
+                       f"process: exit {rc}: {type(exc).__name__}: {str(exc)[:150]}"):
+                keys, cols = read_pixels_raw(out_uri, "/", ("count",))
+                c.check(dict(zip(keys, cols["count"].tolist())) == want and list(keys) == sorted(want),
+                        f"layout-counts-differ:{kind}:default-after-explicit",
+                        "a load with the default column layout gives other pixels after earlier loads of the same process "
+                        "used explicit field numbers")
